@@ -16,6 +16,8 @@ FILES = ["corankco/algorithms/pairwisebasedalgorithm.py"]
 
 
 def setup(ctx):
+    from vf import refnp
+    refnp.selftest()
     common.install_cost_matrix_recorder()
     if "C" in ctx.mode:
         from vf import cover
@@ -38,6 +40,13 @@ def plan(tier, seed):
 
 
 def gen_case(rng, ctx):
+    if "C" not in ctx.mode and rng.random() < 0.03:
+        # sizes at which implementations switch strategy (63 .. 1025 elements), judged against the vectorised reference
+        n = rng.choice(gen.THRESHOLD_SIZES)
+        ds, base = gen.large_dataset(rng, n)
+        scls, sch = gen.scheme(rng, "S1 S1 S2 S3 S15")
+        return {"ds": ds, "scheme": sch, "dcls": "large", "scls": scls, "n": n,
+                "cands": [gen.large_candidate(rng, base)[1] for _ in range(2)]}
     big = rng.random() < 0.04 and "C" not in ctx.mode
     cls, ds = gen.dataset(rng, classes="D1 D2 D3 D3 D4 D5 D6 D7 D7 D9 D21", nmax=40 if big else (7 if "C" in ctx.mode else 12),
                           mmax=8)
@@ -75,7 +84,58 @@ def compare_table(ctx, case, M, table, ids, exact, via):
     return ok
 
 
+def check_large(case, ctx):
+    """63 .. 1025 elements: the whole table against the vectorised reference (vf/refnp.py), from positions and from bucket
+    ids; mirror consistency; selected entries of two candidates add up to their Kemeny scores"""
+    from vf import refnp
+    ds, sch = case["ds"], case["scheme"]
+    slim = {"ds": ds, "scheme": sch, "n": case["n"]}
+    common.set_case(ctx, slim)
+    dataset = libx.mk_dataset(ds)
+    scheme = libx.mk_scheme(sch)
+    ctx.count("class:large")
+    inv = {i: e.value for e, i in dataset.mapping_elem_id.items()}
+    elems = [inv[i] for i in range(len(inv))]
+    want = refnp.cost_table(ds, sch, elems)
+    PBA = ck.algorithms.PairwiseBasedAlgorithm
+    tables = []
+    for how, getter in (("positions", dataset.get_positions), ("bucket ids", dataset.get_bucket_ids)):
+        st, M = call(lambda g=getter: PBA.pairwise_cost_matrix(g(), scheme))
+        if st == "exc":
+            ctx.violation("C02/table-raises", f"pairwise_cost_matrix({how}) raised on {case['n']} elements: " + exc_desc(M), slim)
+            return
+        ctx.count("large_tables_judged")
+        if getattr(M, "shape", None) != want.shape:
+            ctx.violation("C02/table-shape", f"table of shape {getattr(M, 'shape', None)} for {case['n']} elements ({how})",
+                          slim, observed=str(getattr(M, "shape", None)), expected=list(want.shape))
+            return
+        if not np.array_equal(M, want):
+            bad = np.argwhere(M != want)
+            i, j, k = (int(v) for v in bad[0])
+            what = ["before", "after", "tied"][k]
+            sig = "C02/diagonal-not-zero" if i == j else f"C02/entry-differs-{what}"
+            ctx.violation(sig, f"{case['n']} elements: {len(bad)} entries differ from the definition ({how}); first: "
+                          f"({elems[i]!r},{elems[j]!r}) '{what}'", slim, observed=float(M[i][j][k]), expected=float(want[i][j][k]))
+            return
+        tables.append(M)
+    if not np.array_equal(tables[0][:, :, 0], tables[0][:, :, 1].T) or not np.array_equal(tables[0][:, :, 2], tables[0][:, :, 2].T):
+        ctx.violation("C02/not-mirror-consistent", f"{case['n']} elements: before(x,y) != after(y,x) or tied asymmetric", slim)
+    for cand in case["cands"]:
+        c = refnp.candidate_positions(cand, elems)
+        tot = refnp.score_from_table(c, tables[0])
+        expected = refnp.kemeny(cand, ds, sch)
+        ctx.count("candidates_summed")
+        if tot != expected:
+            ctx.violation("C02/selected-entries-do-not-sum-to-score", f"{case['n']} elements: the entries selected by a "
+                          "candidate do not add up to its Kemeny score (definition)", slim, observed=tot, expected=expected)
+    common.COST_CALLS.clear()      # the recorder keeps copies of the tables: tens of MB each at these sizes
+    ctx.nontrivial({"n": case["n"], "scheme": sch, "d": gen.digest(ds)})
+
+
 def check_case(case, ctx):
+    if case.get("dcls") == "large":
+        common.COST_CALLS.clear()
+        return check_large(case, ctx)
     ds, sch = case["ds"], case["scheme"]
     common.set_case(ctx, case)
     dataset = libx.mk_dataset(ds)
@@ -215,5 +275,8 @@ def reach(counters, tier, info):
         v = counters.get("tables_after_in_place_mutation:changed:" + mut, 0)
         out.append({"name": f"... where the removal ({mut}) changed the rankings", "observed": v, "required": 25,
                     "ok": v >= 25})
+    v = counters.get("large_tables_judged", 0)
+    out.append({"name": "tables over 63-1025 elements judged entirely (vectorised reference)", "observed": v, "required": 30,
+                "ok": v >= 30})
     out += anchors.reach(info, [(FILES[0], 24, 96, "jitted triple loop (interpreted mode)")])
     return out
